@@ -166,6 +166,35 @@ func checkC15(ci any, info *CaseInfo) string {
 	info.Class("mode:" + c.Mode)
 	info.Class("format:" + c.Format)
 	cd := codecs[c.Format]
+	if c.Mode == "direct" {
+		// Fold straight into an Unfolder: folders that report strings and keys by
+		// reference from a reused, overwritten buffer (directly, as slice/map
+		// elements, and inlined — behind the library's object-expecting visitor)
+		typ, rv, err := c.Go.build()
+		if err != nil {
+			return err.Error()
+		}
+		info.NonTrivial = true
+		target := reflect.New(typ)
+		u, uerr := newUnfolder(target.Interface())
+		if uerr != nil {
+			return "harness: " + uerr.Error()
+		}
+		o := foldTo(rv, newGCVisitor(u, c.GCAt))
+		if o.Panicked() || o.Err != nil {
+			return fmt.Sprintf("Fold -> Unfold of %s: %v", describeGo(c.Go, rv), o)
+		}
+		runtime.GC()
+		want, e1 := gomodel.FoldModel(rv)
+		got, e2 := gomodel.FoldModel(target.Elem())
+		if e1 != nil || e2 != nil {
+			return fmt.Sprintf("harness: model: %v %v", e1, e2)
+		}
+		if d := model.Diff(want, got, model.Rules{AnyNaN: true}); d != "" {
+			return fmt.Sprintf("Fold -> Unfold of %s: the stored value differs after the folder's buffers were overwritten: %s\n  got %+v", describeGo(c.Go, rv), d, safeInterface(target.Elem()))
+		}
+		return ""
+	}
 	if c.Mode == "fold" {
 		_, rv, err := c.Go.build()
 		if err != nil {
@@ -327,6 +356,28 @@ func drawC15(t *rapid.T) any {
 		}
 		return c
 	}
+	if rapid.IntRange(0, 9).Draw(t, "direct") == 0 {
+		c.Mode = "direct"
+		f := gomodel.TypeDesc{Kind: "pool", Pool: "FRefObj"}
+		inl := rapid.SampledFrom([]string{`struct:",inline"`, `struct:",squash"`, ``, `struct:"f,omitempty"`}).Draw(t, "dtag")
+		td := gomodel.TypeDesc{Kind: "struct", Fields: []gomodel.FieldDesc{
+			{Name: "A", Type: gomodel.TypeDesc{Kind: "string"}},
+			{Name: "F", Tag: inl, Type: f},
+			{Name: "G", Type: gomodel.TypeDesc{Kind: "slice", Elem: &f}},
+			{Name: "M", Type: gomodel.TypeDesc{Kind: "map", Elem: &f}},
+			{Name: "P", Type: gomodel.TypeDesc{Kind: "ptr", Elem: &f}},
+			{Name: "I", Type: gomodel.TypeDesc{Kind: "iface"}},
+		}}
+		typ, err := gomodel.Build(&td)
+		if err != nil {
+			t.Fatalf("harness: %v", err)
+		}
+		c.Go = &GoCase{Type: td, Val: gomodel.DrawValue(t, typ, gomodel.ValCfg{Budget: 30})}
+		if rapid.Bool().Draw(t, "dgc") {
+			c.GCAt = []int{rapid.IntRange(0, 20).Draw(t, "dgcat")}
+		}
+		return c
+	}
 	c.Mode = "unfold"
 	c.Target = rapid.SampledFrom([]string{"iface", "map_string", "slice_string", "struct"}).Draw(t, "target")
 	nd := rapid.IntRange(1, 4).Draw(t, "ndocs")
@@ -367,7 +418,7 @@ func drawC15(t *rapid.T) any {
 func init() {
 	register(&Property{
 		ID:    "C15",
-		Rule:  "histories of 1..4 string-heavy documents (strings/keys with lengths straddling the parsers' 64-byte scratch buffers, escapes, multi-byte runes) encoded with the library encoders and pushed through ONE parser (Write from a scratch buffer that is overwritten right after each Write, generated chunkings; the last chunk of a cborl/ubjson document by Write, Parse or ParseString) or ONE pull decoder (reader schedules, buffer sizes 1..256) into ONE unfolder (SetTarget per document; with/without key cache) with targets interface{}, map[string]string, []string and a reflect-built struct with string, []string, map[string]string, interface{} and map[string]struct fields, optionally with forced GCs at drawn event boundaries; oracle = each result equals a control run (one-shot Parse of an untouched copy into a fresh unfolder) and still equals its snapshot after all later documents, buffer overwrites and two forced GCs; fold mode: Fold -> encoder output is the same with GCs forced at drawn events. non-trivial = a chunk boundary inside a document, or more than one document through the same parser/unfolder; distinct by case hash. The thorough tier repeats the search with the -race build (checkptr instrumentation of unsafe conversions)",
+		Rule:  "histories of 1..4 string-heavy documents (strings/keys with lengths straddling the parsers' 64-byte scratch buffers, escapes, multi-byte runes) encoded with the library encoders and pushed through ONE parser (Write from a scratch buffer that is overwritten right after each Write, generated chunkings; the last chunk of a cborl/ubjson document by Write, Parse or ParseString) or ONE pull decoder (reader schedules, buffer sizes 1..256) into ONE unfolder (SetTarget per document; with/without key cache) with targets interface{}, map[string]string, []string and a reflect-built struct with string, []string, map[string]string, interface{} and map[string]struct fields, optionally with forced GCs at drawn event boundaries; oracle = each result equals a control run (one-shot Parse of an untouched copy into a fresh unfolder) and still equals its snapshot after all later documents, buffer overwrites and two forced GCs; fold mode: Fold -> encoder output is the same with GCs forced at drawn events; direct mode: Fold straight into an Unfolder for values whose folder (FRefObj — as field, inlined field, slice element, map value, pointer) reports keys and strings by reference from a scratch buffer it overwrites after every call: the stored value must equal the folded one. non-trivial = a chunk boundary inside a document, or more than one document through the same parser/unfolder; distinct by case hash. The thorough tier repeats the search with the -race build (checkptr instrumentation of unsafe conversions)",
 		New:   func() any { return &C15Case{} },
 		Draw:  drawC15,
 		Check: checkC15,
